@@ -299,7 +299,7 @@ Proof.
   assert (H6 : inval 6 = true) by (apply Hall; cbn; tauto).
   assert (H7 : inval 7 = true) by (apply Hall; cbn; tauto).
   assert (H8 : inval 8 = true) by (apply Hall; cbn; tauto).
-  destruct o as [c k v|c k v|c k|kvs|ks| |c|c|c|c k|c q k|q k m|c q k b strat]; cbn [step fst].
+  destruct o as [c k v|c k v|c k|kvs|ks| |c|c|c|c k|c q k|q k m|c q k b strat ovs]; cbn [step fst].
   - destruct v; [exact Hs|]. destruct (too_long maxd (n :: v)); [exact Hs|].
     cbn [fst]. apply inv_put; [|exact Hs]. unfold M_STORE, M_COLL_STORE. destruct (N.eqb c 0); assumption.
   - destruct v; [exact Hs|]. destruct (too_long maxd (n :: v)); [exact Hs|].
@@ -399,8 +399,8 @@ Qed.
 
 (* filtered search with the fallback and the dimension guard: an exact search over the vectors that
    match the filter, or (valid cached index) candidates from the index restricted to them *)
-Theorem filtered_path_sound s t c q k b strat : CacheInv s ->
-  match filtered_path true maxd true s t c q k b strat with
+Theorem filtered_path_sound s t c q k b strat ovs : CacheInv s ->
+  match filtered_path true maxd true s t c q k b strat ovs with
   | FExact m => m = matching t c b (data (cget s c))
   | FCachedOrExact snap m => snap = data (cget s c) /\ m = matching t c b (data (cget s c))
   | FErr _ | FEmpty => True
@@ -411,8 +411,8 @@ Proof.
   destruct (N.eqb k 0); [exact I|]. destruct (N.eqb c 0 && too_long maxd (x :: q)); [exact I|].
   destruct (zero_query (x :: q)) eqn:Ez; [exact I|].
   match goal with |- context [if N.eqb ?ch 1 then _ else _] => destruct (N.eqb ch 1) end; [reflexivity|].
-  pose proof (search_path_sound s c (x :: q) (3 * k) Hinv) as Hp.
-  destruct (search_path true maxd s c (x :: q) (3 * k)) as [e| |snap|m d| ]; try exact I.
+  pose proof (search_path_sound s c (x :: q) (oversample_k k ovs) Hinv) as Hp.
+  destruct (search_path true maxd s c (x :: q) (oversample_k k ovs)) as [e| |snap|m d| ]; try exact I.
   - destruct Hp as [Hs _]. split; [exact Hs|reflexivity].
   - reflexivity.
   - exact Hp.
